@@ -88,6 +88,8 @@ Proof.
 Qed.
 
 (* ---------- stepping: one pseudocode line of the specification against one statement of the code ---------- *)
+Lemma run_put_sysv_bind {A} i v (k : unit -> M machine A) s : bind (put_sys i v) k s = k tt (set_sysv s i v).
+Proof. reflexivity. Qed.
 Lemma run_upd_cpsr_bind {A} (f : Z -> Z) (k : unit -> M machine A) s :
   bind (get_sys 0) (fun r => bind (put_sys 0 (f r)) k) s = k tt (upd_cpsr s f).
 Proof. reflexivity. Qed.
@@ -263,7 +265,7 @@ Ltac xexec1 cfg H :=
   | rewrite (x_spsr cfg) by xsd H
   | rewrite (x_rset cfg) by xsd H
   | rewrite (x_branch cfg) by xsd H
-  | rewrite run_put_sys_bind ].
+  | rewrite run_put_sysv_bind ].
 Ltac xexec0 cfg H :=
   first [ xexec1 cfg H | rewrite run_get_sys_bind; cbv beta; xexec0 cfg H ].
 Ltac xexec cfg H := xexec0 cfg H; xacc; rewrite ?negb_truthy_bit, ?truthy_bit.
@@ -360,7 +362,7 @@ Lemma x_clear_ns {A} cfg (k : unit -> M machine A) s : xok cfg s ->
 Proof.
   intros H. unfold clear_ns_if_mon, M_mon.
   destruct (mode_of s =? 22); [|reflexivity].
-  rewrite run_bind, run_get_sys_bind. cbv beta. rewrite run_put_sys_bind. cbv beta. rewrite run_ret. cbn beta iota.
+  rewrite run_bind, run_get_sys_bind. cbv beta. rewrite run_put_sysv_bind. cbv beta. rewrite run_ret. cbn beta iota.
   f_equal. unfold SCR, sysv, i_scr. f_equal. unfold SCR_set_ns. cbv zeta. unfold setbit.
   apply set_int; [|lia|lia]. apply (x_words _ _ H). unfold n_sys. lia.
 Qed.
@@ -508,7 +510,7 @@ Ltac xhypirq cfg H0 EC :=
   let Hv := fresh "Hvirt" in
   assert (Hv : truthy (cfg_have_virt_ext cfg) = true)
     by (destruct (truthy (cfg_have_virt_ext cfg)) eqn:V; [reflexivity|]; cbn [andb orb] in EC; pose proof (mode26_virt cfg _ H0 EC); congruence);
-  rewrite ?bind_ret_tt; rewrite run_put_sys_bind; cbv beta;
+  rewrite ?bind_ret_tt; rewrite run_put_sysv_bind; cbv beta;
   rewrite ?bind_ret_tt, enter_hyp_mode_spec by (first [assumption | xwordmod | apply xok_set_sysv; [exact H0|lia|unfold word; lia]]);
   reflexivity.
 
@@ -555,7 +557,7 @@ Lemma x_if_sysbit {A} (c : bool) (f : Z -> Z -> Z) i b (k : unit -> M machine A)
   bind (if c then bind (get_sys i) (fun r => bind (put_sys i (f r 0)) (fun _ => ret tt)) else ret tt) k s
   = k tt (if c then clear_sysbit s i b else s).
 Proof.
-  intros Hf H Hi Hb. destruct c; [|reflexivity]. rewrite run_bind, run_get_sys_bind. cbv beta. rewrite run_put_sys_bind. cbv beta.
+  intros Hf H Hi Hb. destruct c; [|reflexivity]. rewrite run_bind, run_get_sys_bind. cbv beta. rewrite run_put_sysv_bind. cbv beta.
   rewrite run_ret. cbn beta iota. f_equal. unfold clear_sysbit, sysv. f_equal. unfold setbit. apply set_flag_insert; try assumption; try lia.
   apply (x_words _ _ H). exact Hi.
 Qed.
@@ -580,7 +582,7 @@ Proof.
   xexec cfg H. xlet s1. assert (H1 : xok cfg s1) by (unfold s1; xokt H).
   rewrite (x_if_sysbit _ SCR_set_ns 9 0 _ cfg) by (first [exact H1 | (intros; reflexivity) | unfold n_sys; lia | lia]).
   xlet s2. assert (H2 : xok cfg s2) by (unfold s2; apply xok_if; [apply xok_clear_sysbit; [exact H1|unfold n_sys; lia|lia]|exact H1]).
-  rewrite bind_assoc_run. cbv beta. rewrite run_put_sys_bind. cbv beta. rewrite bind_ret_run. cbv beta.
+  rewrite bind_assoc_run. cbv beta. rewrite run_put_sysv_bind. cbv beta. rewrite bind_ret_run. cbv beta.
   xlet s3. assert (H3 : xok cfg s3) by (unfold s3; xokt H2).
   rewrite (x_if_sysbit _ FPEXC_set_en 113 30 _ cfg) by (first [exact H3 | (intros; reflexivity) | unfold n_sys; lia | lia]).
   xlet s4. assert (H4 : xok cfg s4) by (unfold s4; apply xok_if; [apply xok_clear_sysbit; [exact H3|unfold n_sys; lia|lia]|exact H3]).
